@@ -305,15 +305,22 @@ Definition cast_emit (vt tt st : cty) : cexp :=
 
 Definition emits (vt tt st : cty) : bool := match cast_emit vt tt st with XFail => false | _ => true end.
 
-(** ** branch / return merges: _try_join on two options (with [isinstance(cls, Signed)] always False, as coded) *)
+(** ** branch / return merges: _try_join on two options (vector options of different widths are never joined; a numeric vector and a plain BitVector join to the BitVector) *)
 
 Definition join_adjust (r o : cty) : option cty :=
   match r with
   | CBit => match o with CBit | CBool => Some CBit | _ => None end
   | CBool => match o with CBit => Some CBit | CBool => Some CBool | _ => None end
-  | CBV n | CU n | CS n =>
+  | CBV n =>
       match vec_of o with
       | Some (_, m) => if (n =? m)%N then Some r else None
+      | None => Some r
+      end
+  | CU n | CS n =>
+      (* a Signed/Unsigned option joined with a plain BitVector option of the same width is a BitVector,
+         whatever the order of the options (fix: f05 join) *)
+      match vec_of o with
+      | Some (_, m) => if (n =? m)%N then (match o with CBV _ => Some (CBV n) | _ => Some r end) else None
       | None => Some r
       end
   | _ => Some r
